@@ -105,6 +105,17 @@ CLAIMED = {
          'set_cells only grows sizes. Correspondence as for C04, with history-independence, grid-shape and state-preservation oracles on the implementation.',
     note='Purity of the generated class itself is checked on the implementation (fresh executor per query). TODAY() excluded.',
     technique='Coq proof (state-machine invariants) + trace correspondence', ref='6/C08'),
+ 'C09': dict(
+    text='Unbounded Coq theorems: the Parser facade state machine (cache + two stale flags, safety toggles that OR into the flag) refines the '
+         'abstract translation function for ALL call sequences — every get/write returns what a fresh parser with the settings in force returns '
+         '(text, parser, safety or foreign exception), repeated gets are identical; and for EVERY interleaving of two threads the lazily resolved '
+         'token-set table a thread obtains is the resolved one. Correspondence: call sequences on the real Parser over three xlsx workbooks '
+         '(one unsafe, two sharing formula texts) compared with the model over tables of fresh-parser results; text hashes compared across '
+         'subprocesses with several hash seeds and 4 concurrent threads.',
+    note='Partial by nature: the translation proper is an abstract deterministic function in the model; cross-process, hash-seed and thread '
+         'determinism of the real translation is sampled, not proved; GIL atomicity of attribute assignment is assumed. One genuine defect found '
+         'by this check and fixed (af4502b: stale entry cell across workbooks).',
+    technique='Coq proof (state-machine invariant; schedule-indexed invariant for the two-thread system) + trace correspondence', ref='6/C09'),
 }
 
 ids = [json.loads(l)['id'] for l in open('/verif/properties.jsonl')]
